@@ -668,7 +668,7 @@ func (s *state) store(addr, v *Term) {
 		if k == key {
 			continue
 		}
-		if strings.HasPrefix(k, key+".") || strings.HasPrefix(k, key+"[") {
+		if strings.HasPrefix(k, key+".") || strings.HasPrefix(k, key+"[") || componentOf(a, key) {
 			delete(s.mem, k)
 			delete(s.memAddr, k)
 			continue
@@ -1060,10 +1060,28 @@ func (se *symExec) eval(st *state, fr *frame, v ssa.Value, pristine bool) *Term 
 		se.noteFn(fn)
 		return &Term{Op: "closure", Aux: fn.String(), Args: b, Type: in.Type(), Obj: fn.Object()}
 	case *ssa.Slice:
-		if x := val(in.X); x.Op == "alloc" && !pristine && in.Low == nil && in.High == nil {
+		if x := val(in.X); x.Op == "alloc" && !pristine && in.Max == nil && (in.Low == nil && in.High == nil || sliceOnlyRead(in)) {
 			if at, ok := deref(in.X.Type()).Underlying().(*types.Array); ok {
 				if v := st.load(x, at); v.Op == "array" {
-					return &Term{Op: "slicelit", Args: v.Args, Type: in.Type()}
+					// constant bounds (on this path) select the elements: events[:count] with count known
+					lo, hi, okB := int64(0), int64(len(v.Args)), true
+					if in.Low != nil {
+						if k, isK := val(in.Low).StripConv().IsIntConst(); isK {
+							lo = k
+						} else {
+							okB = false
+						}
+					}
+					if in.High != nil {
+						if k, isK := val(in.High).StripConv().IsIntConst(); isK {
+							hi = k
+						} else {
+							okB = false
+						}
+					}
+					if okB && 0 <= lo && lo <= hi && hi <= int64(len(v.Args)) {
+						return &Term{Op: "slicelit", Args: v.Args[lo:hi], Type: in.Type()}
+					}
 				}
 			}
 		}
@@ -1601,6 +1619,24 @@ func (se *symExec) inertInstr(in ssa.Instruction, region map[*ssa.BasicBlock]boo
 	return false
 }
 
+// allocRoot: the local variable the address is a component of (nil: not rooted in a local).
+func allocRoot(v ssa.Value) *ssa.Alloc {
+	for {
+		switch x := v.(type) {
+		case *ssa.Alloc:
+			return x
+		case *ssa.FieldAddr:
+			v = x.X
+		case *ssa.IndexAddr:
+			v = x.X
+		case *ssa.Slice:
+			v = x.X
+		default:
+			return nil
+		}
+	}
+}
+
 func allocRooted(v ssa.Value) bool {
 	for {
 		switch x := v.(type) {
@@ -1731,6 +1767,13 @@ func (se *symExec) collapsible(b *ssa.BasicBlock) *collapseInfo {
 		for _, in := range x.Instrs {
 			if !se.inertInstr(in, region) {
 				return ci
+			}
+			// a store into a local variable that lives outside the diamond is what the code after the join reads
+			// (`if negative { driven, resting = resting, driven }`): not scratch memory of the diamond
+			if st, ok := in.(*ssa.Store); ok {
+				if root := allocRoot(st.Addr); root != nil && !region[root.Block()] {
+					return ci
+				}
 			}
 		}
 	}
@@ -1894,4 +1937,48 @@ func canonicalCall(callee *ssa.Function, args []*Term) (string, []*Term) {
 		return "os.OpenFile", []*Term{args[0], zero(), zero()}
 	}
 	return callee.String(), args
+}
+
+// componentOf: a is the address of a field / element (at any depth) of the variable whose address prints as key. A whole
+// assignment `d = r` replaces every component recorded for d.
+func componentOf(a *Term, key string) bool {
+	for t := a; t != nil && (t.Op == "fieldaddr" || t.Op == "indexaddr") && len(t.Args) > 0; {
+		t = t.Args[0]
+		if t.String() == key {
+			return true
+		}
+	}
+	return false
+}
+
+// sliceOnlyRead: the slice value is used for nothing but reading its elements and its length (iteration, indexing,
+// len): then it can be represented by a snapshot of the array's elements. A slice that is written through
+// (`ev := make(Event, 3); ev[0] = ...`) keeps its identity instead.
+func sliceOnlyRead(sl *ssa.Slice) bool {
+	refs := sl.Referrers()
+	if refs == nil {
+		return false
+	}
+	for _, r := range *refs {
+		switch x := r.(type) {
+		case *ssa.IndexAddr:
+			if x.Referrers() == nil {
+				return false
+			}
+			for _, rr := range *x.Referrers() {
+				if u, ok := rr.(*ssa.UnOp); !ok || u.Op != token.MUL {
+					return false
+				}
+			}
+		case *ssa.Range, *ssa.DebugRef:
+		case *ssa.Call:
+			b, ok := x.Call.Value.(*ssa.Builtin)
+			if !ok || (b.Name() != "len" && b.Name() != "cap") {
+				return false
+			}
+		default:
+			return false
+		}
+	}
+	return true
 }
